@@ -67,7 +67,7 @@ class C12(Prop):
             "with FD and user Jacobian, splitting, Richardson; both directions; dense on/off; events incl. terminal; callbacks).  The fault-free twin is "
             "run once and the number of rhs / Jacobian / event / callback calls per op is read off; then EVERY crash point is enumerated: one derived "
             "case per (seam, k) with the k-th call of that seam raising (Boom and KeyboardInterrupt alternate), capped at 120 per base by seeded "
-            "sub-sampling; the thorough tier adds two- and three-fault sequences (fault, resume, fault, resume).  Each derived case runs the faulted "
+            "sub-sampling; 6 (quick) / 24 (thorough) two- and three-fault sequences per base (fault, resume, fault, resume) and up to 6 tolerance-failure cases (persistent rhs spikes + retry cap).  Each derived case runs the faulted "
             "world and compares it with the twin.  Non-trivial = the fault fired and at least one step was recorded in the whole history; distinct = "
             "distinct canonical scenario JSON; crash phases are classified from the trace and counted")
     assumptions = ["a fault in an event function may leave the current step recorded or not (both accepted); every other phase must leave exactly the completed steps",
@@ -109,9 +109,9 @@ class C12(Prop):
                 c["faults"] = [{"op": i, "seam": "rhs", "at": k + j, "kind": "spike", "amp": 1e6} for j in range(40 * (cap + 2))]
                 c["tolerance_failure"] = True
                 out.append(c)
-        if tier == "thorough" and points:
+        if points:
             # fault sequences: fault, resume, fault (in the resume op), resume ...
-            for _ in range(min(24, len(points))):
+            for _ in range(min(24 if tier == "thorough" else 6, len(points))):
                 i, seam, k = r.choice(points)
                 c = copy.deepcopy(base)
                 c["ops"].insert(i + 1, {"op": "integrate"})
